@@ -158,6 +158,20 @@ impl Projector {
             items.pop();
         }
 
+        // ... and when the first block that is written is a heading or a paragraph, that
+        // block is the item's text (this is how the item is read back)
+        if iter.inlines().is_empty() {
+            if let Some(blocks) = items.last_mut() {
+                match blocks.get(1).cloned() {
+                    Some(GraphBlock::Header(_, inlines)) | Some(GraphBlock::Para(inlines)) => {
+                        blocks[0] = GraphBlock::Plain(inlines);
+                        blocks.remove(1);
+                    }
+                    _ => {}
+                }
+            }
+        }
+
         iter.next()
             .map(|next| self.with(self.header_level).project_list_item(next))
             .map(|blocks| items.append(blocks.clone().as_mut()));
